@@ -14,17 +14,20 @@ META = {
 T = 3600
 
 def run(ctx):
+    # VERIF_C48_STRICT=1: expect the behaviour after the candidate fix (limit-capped storage ranges are proven);
+    # the pending finding is then a plain violation
+    sfx = "Fixed" if os.environ.get("VERIF_C48_STRICT") == "1" else ""
     drv = ctx.build("c48")
     spec = os.path.join(os.path.dirname(os.path.dirname(os.path.abspath(__file__))), "spec", "net")
     # MC: the statement on a fixed small world (model only)
-    ctx.model_check("net/MCSnapServe", "net/MCSnapServe", env={"WORLD": os.path.join(spec, "SnapWorldSmall.json")},
+    ctx.model_check("net/MCSnapServe", "net/MCSnapServe" + sfx, env={"WORLD": os.path.join(spec, "SnapWorldSmall.json")},
                     timeout=T, name="MCSnapServe-fixed-world", workers=4)
     # R: the seeded world of the driver, all requests enumerated by TLC, executed on the real handlers
     for k in range(ctx.pick(1, 4)):
         wp = os.path.join(ctx.scratch, "world-%d.json" % k)
         env = {"VERIF_SEED": str(ctx.seed * 10 + k)}
         ctx.drive(drv, ["-mode", "world", "-world", wp], name="c48-world", timeout=T, env=env)
-        res = ctx.model_check("net/MCSnapServe", "net/MCSnapServeCases", env={"WORLD": wp}, tags=("CASE",), timeout=2 * T,
+        res = ctx.model_check("net/MCSnapServe", "net/MCSnapServeCases" + sfx, env={"WORLD": wp}, tags=("CASE",), timeout=2 * T,
                               name="MCSnapServe-cases-%d" % k, workers=4)
         cases = res.lines.get("CASE", [])
         if not cases:
@@ -37,7 +40,7 @@ def run(ctx):
     # V: random requests on larger worlds
     tp = os.path.join(ctx.scratch, "trace.ndjson")
     s, _ = ctx.drive(drv, ["-mode", "record", "-trace", tp, "-n", ctx.pick(4, 30), "-req", ctx.pick(500, 1000)], name="c48-record", timeout=T)
-    ok, consumed, total, r = ctx.validate("net/SnapServeTrace", tp, ntraces=s["traces"], timeout=2 * T)
+    ok, consumed, total, r = ctx.validate("net/SnapServeTrace", tp, cfg="net/SnapServeTrace" + sfx, ntraces=s["traces"], timeout=2 * T)
     if not ok:
         ctx.reject_trace("net/SnapServeTrace", tp, consumed, r)
     known = sum(d["counts"].get("known-finding:storage-limit-without-proof", 0) for d in ctx.cov["drivers"])
